@@ -1,5 +1,7 @@
 """C02 — Model edits do exactly what they document; cross-references stay consistent."""
-from contracts import c15_dictlist, misc_small, c02_xref  # noqa
+from contracts import c15_dictlist, misc_small, c02_xref, c02_rename, c02_boundary  # noqa
+from contracts import c02_update_genes as U
+from contracts import c02_add_metabolites as AM
 from props._generic import run_property, replay_with_driver
 
 LEVEL = "other"
@@ -9,10 +11,18 @@ KEYS = ["DictList." + k for k in ("append extend _extend_nocheck remove __isub__
                                   "has_id index __contains__ union __iadd__ add").split()] + [
     "Reaction.copy", "Reaction._associate_gene", "Reaction._dissociate_gene", "Group.add_members", "Group.remove_members",
     "Model.get_associated_groups"]
+# contracts with their own hook tables: renaming / removal wrappers (ghost trace of the Model calls), add_boundary (decision table)
+RENAME_KEYS = ["Reaction._set_id_with_model", "Metabolite._set_id_with_model", "Reaction.remove_from_model", "Reaction.delete",
+               "Metabolite.remove_from_model", "Variable.name@setter", "Constraint.name@setter", "Container.__getitem__"]
+BOUNDARY_KEYS = ["Model.add_boundary"]
+# Reaction.update_genes_from_gpr needs its own hook table (the materialised reaction's heap-resident gene set, the ghost undo trace)
+KEYS_UG = ["Reaction.update_genes_from_gpr"]
+KEYS_AM = ["Model.add_metabolites"]
 
 
 def run(rep):
-    run_property(rep, KEYS, explanation=(
+    run_property(rep, KEYS, more=[(RENAME_KEYS, c02_rename.HOOKS), (BOUNDARY_KEYS, c02_boundary.HOOKS), (KEYS_UG, U.HOOKS), (KEYS_AM, AM.HOOKS)],
+                 lemmas=U.lemmas, explanation=(
         "Deductive part: the clauses `identifiers are unique` and `every listed object is the one found by looking up its "
         "identifier` hold because every model edit changes model.reactions/metabolites/genes/groups only through the DictList "
         "operations listed here, each proved (C15 contracts, unbounded) to preserve the representation invariant and to produce "
@@ -20,12 +30,70 @@ def run(rep):
         "model are added) is proved to leave all model pointers of its operand as found; the primitive cross-reference updates "
         "Reaction._associate_gene/_dissociate_gene are proved to update both directions (reaction lists gene iff gene lists reaction "
         "for the pair, nothing else touched), Group.add_members/remove_members to add/remove exactly the listed members of exactly "
-        "that group, Model.get_associated_groups to return exactly the groups containing the element, in order. The documented effect of each public "
-        "editing operation on stoichiometry, gene sets, back-references and groups (add_reactions re-pointing, add_metabolites "
-        "combine/replace, update_genes_from_gpr, remove_* with orphans, remove_genes/rename_genes, add_boundary, merge) is NOT "
+        "that group, Model.get_associated_groups to return exactly the groups containing the element, in order. Renaming an object that "
+        "belongs to a model (Reaction._set_id_with_model, Metabolite._set_id_with_model): an id already in the list raises ValueError "
+        "and changes nothing; otherwise exactly this object's id becomes the new id, the model's DictList is well formed again with "
+        "the same members at the same positions, lookup by the new id finds the object, the old id is gone, every other key is found "
+        "as before, and the solver objects are renamed in step (C01); for a reaction whose new id or reverse id optlang refuses as a "
+        "variable name (white space) ValueError is raised and nothing has changed - id, list, index, both variable names (the "
+        "original body left id and index changed: defect found with this contract, repaired in /repo acce6db). Preconditions: the "
+        "object is listed in its model's well-formed DictList, solver in step at entry; for a metabolite also that optlang accepts "
+        "the new name (its constraint is renamed first, so a refused name raises before anything changed). The wrappers "
+        "Reaction.remove_from_model / delete and Metabolite.remove_from_model make exactly one call Model.remove_reactions([self], "
+        "remove_orphans=<as given>) resp. Model.remove_metabolites(self, <destructive as given>) on the object's own model (precondition: it belongs to one). "
+        "Model.add_boundary follows the decision table of its docstring for every shape of its optional arguments (exchange / demand "
+        "/ sink / custom: id prefix EX_/DM_/SK_ + metabolite id unless reaction_id is given; bounds given or configured, demand lower "
+        "bound 0; default SBO term unless a non-empty one is given; name = metabolite name + ' ' + type; exactly {metabolite: -1} "
+        "through one add_metabolites call; then one add_reactions([rxn]) call and rxn returned; the three ValueErrors - exchange of a "
+        "metabolite outside the compartment find_external_compartment reports, custom type without id, id already in the model - "
+        "with nothing handed to the model), find_external_compartment / the Reaction constructor / add_metabolites / add_reactions "
+        "being abstract calls. "
+        "Reaction.update_genes_from_gpr - the function through which every change of a gene rule updates reaction.genes and "
+        "gene.reactions - is proved for a reaction that is IN a model, without and with an open context, whatever the rule (three "
+        "loop invariants: over the rule's names in any enumeration order, over the new gene set, over old minus new; the callees "
+        "_associate_gene / _dissociate_gene, DictList.has_id / append / get_by_id and get_context by their proved contracts). With N "
+        "the set of gene names of the rule (empty when the rule has no body): afterwards reaction._genes is exactly the set of the "
+        "model's genes whose identifier is in N (both inclusions, and member by member); model.genes keeps its old members in place "
+        "and stays a well-formed DictList, and gains exactly one NEW Gene object per name of N that had no gene - with that "
+        "identifier, pointing at the model, listed by no reaction before, listing exactly this reaction afterwards; for every gene "
+        "of the old or the new set, `reaction in gene._reaction` holds afterwards exactly when the gene is in the new set, and every "
+        "gene of the new set points at the model; a gene in neither set keeps its identifier, model pointer and reaction set, no "
+        "entry of any gene's reaction set for ANOTHER reaction changes, no other reaction's gene set changes; hence if `g in "
+        "genes(reaction) <=> reaction in reactions(g)` held for this reaction at entry it holds at exit, and (lemma xref-preserved, a "
+        "closed formula over exactly these post-conditions) the same for the invariant over the whole heap. Without a context "
+        "nothing is registered; with a context the undo functions registered - all in the innermost context of the model - are "
+        "exactly: for each created gene partial(model.genes.__isub__, [gene]) immediately followed by partial(setattr, gene, "
+        "'_model', None), both before its dissociation entry; one partial(self._dissociate_gene, g) per gene of the new set that was "
+        "NOT in the old set (the repair: a gene that was part of the reaction before stays part of it when the change is "
+        "reverted); one partial(self._associate_gene, g) per gene of the old set that is not in the new set; nothing else and "
+        "nothing twice (ghost trace with a witness map). ASSUMED there: the GPR.genes getter returns the ghost name set of the rule "
+        "tree; Gene(id) allocates a new object (referenced by nothing that exists, given identifier, no model, empty reaction set); "
+        "glue precondition: the heap's model pointer of the materialised reaction is the materialised model; the explicit form of "
+        "the DictList index after append is assumed at the call site and justified by the lemma append-index over the C15 "
+        "post-condition. The model-less branch of update_genes_from_gpr (a set comprehension allocating one Gene per name) is NOT "
+        "covered. "
+        "Model.add_metabolites (no context open, a list of pairwise different objects) is proved for lists and models of any size: "
+        "the metabolites that join are exactly those of the argument whose identifier is not yet in the model, appended in their "
+        "order to model.metabolites, which is well formed again; every one of them points at the model and lists afterwards exactly "
+        "those of its reactions that belong to this model (the back-references to reactions outside the model are dropped: repair "
+        "f52a176), no other model pointer or reaction set changes; the mass-balance constraints handed to add_cons_vars in one call "
+        "are Constraint(Zero, name=<id>, lb=0, ub=0), one for every joining metabolite whose identifier names no constraint yet and "
+        "nothing else; an empty argument changes nothing, an empty identifier raises ValueError before anything is changed. "
+        "The documented effect of each other public "
+        "editing operation on stoichiometry, gene sets, back-references and groups (add_reactions re-pointing, Reaction.add_metabolites "
+        "combine/replace, remove_* with orphans, remove_genes/rename_genes, merge), the parsing of the rule text and what the "
+        "registered undo functions do when they run are NOT "
         "proved - those functions mix sympy/optlang calls, string parsing and nested loops outside the supported subset: bounded "
         "driver (histories compared step by step with an executable reference description + Inv_XRef after every step)."),
-        trusted=["CPython list/dict semantics as axiomatised", "copy.deepcopy returns a fresh detached object (assumed)"])
+        trusted=["CPython list/dict semantics as axiomatised", "copy.deepcopy returns a fresh detached object (assumed)",
+                 "reverse_id is a function of the current id; model.variables[...] finds the reaction's variables (assumed getters)",
+                 "add_boundary: Reaction constructor stores id/name/bounds as given with an empty annotation dict; "
+                 "find_external_compartment, Reaction.add_metabolites, Model.add_reactions abstract (ghost trace); f-strings as opaque "
+                 "concatenation of uninterpreted identifiers",
+                 "GPR.genes returns the gene names of the rule tree (ghost rule_names; assumed contract)",
+                 "Gene(id) allocates a new object referenced by nothing that exists (assumed allocation contract)",
+                 "get_context by its contract proved under C03; set semantics (copy, add, difference, iteration in any order) as "
+                 "axiomatised", "Model.add_cons_vars as a recorded call; optlang Constraint constructor uninterpreted"])
 
 
 def replay(payload):
